@@ -23,7 +23,8 @@ func init() {
 		Explanation: "The equality with a sequential reference model is a history property and is declined. Decided: (1) the subtree relation is element-boundary aware: in the configuration pipeline a prefix test between two path-typed strings goes through the designated helper (whose body is checked to test the character after the prefix against '/' and '[') or has a separator appended to its second operand; " +
 			"(2) the Get filter: the non-exact expression built from the request path ends in a boundary alternative (or the query itself ends in '/'); (3) order independence: inside a range over a map in the change pipeline, a write or delete on a collection that outlives the iteration is keyed by the iteration's own key or by the Path of its own value; " +
 			"(4) tombstones are not readable: Get appends a value only under 'path matches ∧ not Deleted', and BuildTree iterates the values pruned without tombstones; (5) the persisting decision table of the configuration store (entry exists? survives pruning? index differs?) → Insert / Remove / Update / nothing, with every other store error leaving the function and one Commit after the loop over all values." +
-			" Also: delete, replace, update are visited in that order by the Set handler (C03.17); the v2 store synchronises its value maps with the pruned values (C03.5a).",
+			" Also: delete, replace, update are visited in that order by the Set handler (C03.17); the v2 store synchronises its value maps with the pruned values (C03.5a)." +
+			" Also: C03.18.",
 		Declined: []string{"leaf-by-leaf equality with a reference model over histories", "wildcard semantics beyond the boundary clause", "JSON rendering (C18)"},
 		Run:      runC03,
 		Witness: []WitnessTarget{{pkgCtlUtils, []string{"AddDeleteChildren"}}, {pkgTreeV2, []string{"PrunePath"}}, {pkgUtilsPath, []string{"IsDescendantPath"}}, {pkgUtils, []string{"MatchWildcardRegexp"}},
@@ -38,6 +39,8 @@ func runC03(c *engine.Ctx, tier string) {
 	mapOrder(c, "C03.3", []string{pkgCtlUtils, pkgProposalCtl, pkgTxCtlV3, pkgStoreCfgV2, pkgStoreCfgV3, pkgTreeV2, pkgTreeV3})
 	tombstones(c)
 	operationOrder(c)
+	// "a delete removes precisely the addressed node": the recorded path is the named path (seed C03-r51; the same clause is C13.17)
+	deleteLandsOnNamedPathAs(c, "C03.18")
 	persistTableSync(c, "C03.5a", pkgStoreCfgV2)
 	persistTable(c, "C03.5b", pkgStoreCfgV3)
 	removalsPersisted(c)
